@@ -3,6 +3,9 @@ and kills the particles listed for the step.  The script is part of the scenario
 import numpy as np
 import verif_rec as R
 
+TOKEN = -1   # the per-scenario copy of this file (written into the scenario directory) carries its own token
+
+
 
 class IBM:
     def __init__(self, modules, kill=None, freeze=None, **kw):
@@ -20,7 +23,7 @@ class IBM:
             st["alive"][st.pid == pid] = False
         for pid in self.freeze.get(step, []):
             st["active"][st.pid == pid] = False
-        R.emit("ibm", step=step, pre=pre, post=R.snap(st))
+        R.emit("ibm", step=step, pre=pre, post=R.snap(st), token=TOKEN)
 
     def close(self):
-        R.emit("close", mod="ibm")
+        R.emit("close", mod="ibm", token=TOKEN)
